@@ -118,7 +118,10 @@ func Verif_C10_ApkSign() {
 		sc.Info.Deb.Signature.KeyFile, sc.Info.RPM.Signature.KeyFile = sc.Info.APK.Signature.KeyFile, sc.Info.APK.Signature.KeyFile
 	}
 	wantName := ""
-	switch v.NondetChoice("keyname", 3) {
+	switch v.NondetChoice("keyname", 4) {
+	case 3:
+		sc.Info.APK.Signature.KeyName = "ci.pub" // ends in .pub but not in .rsa.pub
+		wantName = ".SIGN.RSA.ci.pub.rsa.pub"
 	case 0:
 		sc.Info.APK.Signature.KeyName = "origin"
 		wantName = ".SIGN.RSA.origin.rsa.pub"
